@@ -421,6 +421,36 @@ func r16_5(c *Ctx, rule string) {
 					return false
 				}
 				p, isP := eng.Strip(call.Call.Args[0]).(*ssa.Parameter)
+				if isP && p.Parent() != nc && c.P.Transparent(p.Parent()) {
+					// built by a helper (`newPatternMatcher(kind, patterns)`): the list is
+					// what newCopier hands to the helper at the call this field's value comes from
+					idx := -1
+					for i, q := range p.Parent().Params {
+						if q == p {
+							idx = i
+						}
+					}
+					found := false
+					for _, k := range c.P.CallsTo(nc, c.P.FnName(p.Parent())) {
+						kc, isCall := k.(*ssa.Call)
+						if !isCall || kc.Parent() != nc || idx < 0 || idx >= len(kc.Call.Args) {
+							continue
+						}
+						from := s.Val // (not Strip: it would look into the helper)
+						if ex, isEx := from.(*ssa.Extract); isEx {
+							from = ex.Tuple
+						}
+						if from != ssa.Value(kc) {
+							continue
+						}
+						q, isQ := eng.Strip(kc.Call.Args[idx]).(*ssa.Parameter)
+						if !isQ || c.P.ParamName(q) != e.param {
+							return false
+						}
+						found = true
+					}
+					return found
+				}
 				return isP && c.P.ParamName(p) == e.param
 			}, 5) {
 				ok = true
